@@ -98,6 +98,22 @@ pub fn stats_from_json(v: &Value) -> Option<Stats> {
     Some(st)
 }
 
+/// `Stats::merge` keeps the first 20 violations whatever they are; here one witness per
+/// signature is kept instead, so that a frequent violation cannot crowd out a rare one.
+pub fn merge_dedup(dst: &mut Stats, mut src: Stats) {
+    let incoming = std::mem::take(&mut src.violations);
+    for v in incoming {
+        if dst.violations.iter().any(|x| x.signature == v.signature) {
+            dst.add("violations_with_a_signature_already_reported", 1);
+        } else if dst.violations.len() < 200 {
+            dst.violations.push(v);
+        } else {
+            dst.add("violations_dropped_over_cap", 1);
+        }
+    }
+    dst.merge(src);
+}
+
 // ------------------------------------------------------------------------------------------
 // child side
 
@@ -166,7 +182,7 @@ where
                                 m.entry("case").or_insert(json!(idx));
                             }
                         }
-                        st.merge(local);
+                        merge_dedup(&mut st, local);
                     }
                     Err(p) => {
                         // guarded calls into the parser never unwind up to here, so this is harness code
@@ -435,12 +451,12 @@ pub fn run_section(run: &mut Run, label: &str, n_cases: u64, batch: u64, frac: f
                             }
                         }
                     }
-                    merged.lock().unwrap().merge(local);
+                    merge_dedup(&mut merged.lock().unwrap(), local);
                 }
             });
         }
     });
-    run.stats.merge(merged.into_inner().unwrap());
+    merge_dedup(&mut run.stats, merged.into_inner().unwrap());
 }
 
 /// CPU time of the calling thread (ns) from the scheduler statistics; falls back to wall time.
